@@ -56,6 +56,30 @@ tree): every entry is well formed and no unpositioned node has the type of a pos
 def treeOk (t : Val) : Bool :=
   (entries [] [] t).all fun e => e.ok && e.typed (posTypes t).contains
 
+/-- Additional local clauses for the span theorems: no newline in types and scalar reprs; a scalar is
+not stored under a field whose path text ends with `/_pos`. -/
+def Entry.ok2 (e : Entry) : Bool :=
+  e.ok &&
+    match e.item with
+    | .node ty _ _ _ => !ty.contains '\n'
+    | .list _ _ => true
+    | .scalar r => !r.contains '\n' && !(cs!"/_pos").isSuffixOf (encNames e.names)
+
+/-- Line numbers never decrease along the pre-order enumeration of the positioned nodes. -/
+def PreorderMonotone (es : List Entry) : Prop :=
+  (positionedOfEntries es).Pairwise (fun a b => a.2 ≤ b.2)
+
+instance (es : List Entry) : Decidable (PreorderMonotone es) := by
+  unfold PreorderMonotone; infer_instance
+
+/-- The shape of a match of the `node` feature: one POS, or two POS with non-decreasing lines. -/
+def GoodSpan (m : Str × List Str) : Prop :=
+  ∃ n a, m.2 = [posText n a] ∨ ∃ n' a', m.2 = [posText n a, posText n' a'] ∧ n ≤ n'
+
+/-- `Tree.WF` for the span theorems of C02 (Bool-valued, evaluated by the driver on every tree). -/
+def treeOk2 (t : Val) : Bool :=
+  (entries [] [] t).all fun e => e.ok2 && e.typed (posTypes t).contains
+
 /-! ## Data flow of tagging (for `C01_same_text`) -/
 
 /-- What `get_program` hands over and `collect` stores: only `source` matters here. -/
